@@ -17,6 +17,7 @@ from .common import *  # noqa
 from .common import key_of, union, isinstance_handled, noreturn_set, class_names
 from .shared import path_conditions, enclosing
 from . import c01, c03
+from .shared import Retag as shared_retag
 
 EFFECTS = {"connect", "replace", "disconnect", "popitem"}
 
@@ -77,6 +78,10 @@ def check(repo: Repo, R) -> None:
     dispatch_completeness(repo, R, noret)
     guard_inventory(repo, R, noret)
     c03.slice_inner(repo, R, "C02")
+    c01.array_partition(repo, shared_retag(R, lambda r: "C02.4-guard-inventory", None), "C01.3-array-partition")
+    from . import c08
+    c08.check(repo, shared_retag(R, lambda r: "C02.7-failed-visit-never-revisited" if r.startswith("C08.3") else None,
+                                 "after a checking or rewriting pass failed on an ill-formed module, a later call re-visits the half-rewritten module (the fault has been popped away) and returns a package for it"))
     dead_guards(repo, R, "C02.6-no-dead-guards", [("_elaborated", "Module", F_MODULE), ("_pre_flattening_io", "Module", F_MODULE)])
     R.floor("C02.1-live-checking-passes", 2)
     R.floor("C02.3-dispatch-complete", 4)
@@ -95,7 +100,11 @@ def live_passes(repo: Repo, R):
     # per-class caches
     base = repo.cls(F_BASE, "ElabPass")
     isc = base.methods.get("__init_subclass__")
-    per_class = isc is not None and bool(pat.find("cls.CLASS_LEVEL_CACHE = ClassLevelCache()", isc.node))
+    per_class = False
+    if isc is not None:
+        for c, _b in pat.find("cls.CLASS_LEVEL_CACHE = ClassLevelCache()", isc.node):
+            # unconditional: a cache created only "if there is none yet" is inherited by sub-classes of a pass
+            per_class = not path_conditions(isc.node, c)
     emb = repo.func(F_BASE, "ElabPass.elaborate_module_base")
     early = False
     for n in au.walk_no_nested(emb.node):
